@@ -1,9 +1,67 @@
+def _dist_key(op, impl):
+    """op kind + result classes (error kinds, not payloads)"""
+    fs = dict(f.split("=", 1) for f in impl.split("|") if "=" in f)
+    def cls(x):
+        if x is None:
+            return "?"
+        if x.startswith("err "):
+            return x[4:]
+        if x.startswith("ok"):
+            return "ok"
+        return x if x in ("same", "-", "none", "neq", "panic", "0", "1") else "bytes"
+    kind = op.split(" ", 1)[0]
+    if kind == "dec":
+        return "dec -> gen=%s genx=%s reenc=%s" % (cls(fs.get("gen")), cls(fs.get("genx")), cls(fs.get("reenc")))
+    return "enc -> gen=%s rt=%s" % (cls(fs.get("gen")), cls(fs.get("rt")))
+
+
 CONFIG = dict(
     prop="C21",
-    ready=False,
+    ready=True,
+    manifest=dict(
+        text="Lean 4 theorems, for ALL values and ALL byte strings (no size bounds), in three layers. "
+             "(A) Reference codec Sky.Codec.enc/dec/size, a transcription of encoder.go over a schema universe, proved once by "
+             "induction on the schema: round trip dec(enc v ++ rest) = (v, rest); Size = bytes written; exact decoding is canonical "
+             "for every omitempty-free schema (decExact b = ok v -> enc v = b) and, with omitempty, enc v = b OR b = enc v ++ 00000000 "
+             "with an empty last field (the exact statement; the failing case is proved to exist: intro_not_canonical = known finding F13); "
+             "decoded values respect every maxlen tag; error kinds (never ErrRemainingBytes from the plain decoder, ErrInvalidBool only "
+             "with a bool, ErrMaxLenExceeded only with a tag; underflow test before maxlen test); the generated encoder refuses exactly "
+             "when a tagged field exceeds maxlen. (B) Generated code: op programs DProg/EProg/SProg with an operational semantics that "
+             "can PANIC (unguarded slice expression, write past the buffer allocated from encodeSizeX); a program equal to refCodec(t) "
+             "decodes, encodes and sizes exactly like the reference on every input and never panics. (C) Per generated file, "
+             "REGENERATED on every run by tools/extract/codecgen from the 29 *_skyencoder.go files and the Go struct declarations + "
+             "enc tags: gen_X_refines : denote prog_X = refCodec ty_X (by decide) and ty_X = the stable hand-written schema; "
+             "all_refine instantiates (A)+(B) for all 29. The correspondence run executes BOTH Go encoders (generated encodeX/"
+             "decodeX/decodeXExact/encodeSizeX via *_verif.go hooks, and encoder.Serialize/Size/DeserializeRaw/DeserializeRawExact) "
+             "on type-directed values (nil/empty/1/2/maxlen-1/maxlen/maxlen+1/70000-element slices, extreme integers) and on valid, "
+             "truncated, byte-mutated, length-field-edited, extended and random byte strings; the Lean reference answers every line; "
+             "bytes, decoded value, consumed length, error kind, DeepEqual of the two decoded objects and the re-encoding must agree.",
+        note="Carried by the tie, not by theorems: that Sky.Codec.enc/dec is what encoder.go does (harness, both directions, every "
+             "run) and that codecgen reads the generated files correctly (every statement must match a template exactly, else hard "
+             "error). uint64 wrap in encodeSizeX is not modelled (sizes << 2^64). Known finding F13 (IntroductionMessage omitempty: "
+             "explicit empty Extra decodes and re-encodes 4 bytes shorter) is reported as KNOWN-FINDING. Repaired while building: "
+             "693ca3325 (reference decoder accepted a truncated omitempty field that the generated decoder rejects).",
+        technique="Lean 4 proof (generic induction over a schema universe + regenerated per-file refinement obligations) + differential correspondence of both Go encoders against the executable reference",
+    ),
+    dist_key=_dist_key,
     translators=["codecgen"],
-    props_files=["Sky/Props/C21.lean"],
-    model_files=["Sky/Codec/Basic.lean", "Sky/Codec/Lemmas.lean", "Sky/Codec/Prog.lean", "Sky/Codec/Schemas.lean",
-                 "Sky/Codec/Text.lean", "Sky/C21/Drv.lean"],
+    props_files=["Sky/Props/C21.lean", "Sky/Gen/CodecsThm.lean"],
+    model_files=["Sky/Codec/Basic.lean", "Sky/Codec/Lemmas.lean", "Sky/Codec/Prog.lean", "Sky/Codec/ProgLemmas.lean",
+                 "Sky/Codec/Schemas.lean", "Sky/Codec/Text.lean", "Sky/C21/Drv.lean"],
     min_ops={"quick": 8000, "thorough": 200000},
+    trusted_base=[
+        "Lean 4.33.0 kernel; axioms allowed: propext, Classical.choice, Quot.sound (audited by #print axioms)",
+        "tools/extract/codecgen: syntactic extraction of the op programs of the 29 generated files and of the struct schemas "
+        "(exact template match per statement; unrecognised shape = hard error)",
+        "harness/c21 + Sky/C21/Drv.lean: differential run of generated and reference Go encoders against Sky.Codec",
+    ],
+    assumptions=[
+        "Go values are well formed (integers in range, fixed arrays of their declared length): predicates WF / ShapeOK",
+        "uint64 arithmetic in encodeSizeX does not wrap (encoded sizes are far below 2^64)",
+        "the primitive Decoder/Encoder methods (d.Uint32, e.CopyBytes, ...) are modelled by hand and validated by the correspondence",
+    ],
+    rule="per generated codec (29): type-directed values with slice lengths {nil, empty, 1, 2, 3-6, maxlen-1, maxlen, maxlen+1, 200-400, "
+         "70000 (rationed)} and boundary integers -> enc op; from each value's encoding: all/sampled truncations, single-byte mutations, "
+         "every length field set to {0, len+-1, 2^31, 2^32-1, bytes-left, bytes-left+1, maxlen, maxlen+1}, trailing 00 / 00000000 / "
+         "01000000 / random, random strings -> dec ops; distinct = distinct (op, output) lines",
 )
